@@ -148,6 +148,19 @@ def compare(r, requested):
         out.append(('C01', 'missing-inputs', f'unmet_input_dependencies()={r.unmet_inputs} but closure finds {dict((k, sorted(v)) for k, v in c.missing.items())}'))
     if {k: sorted(set(v)) for k, v in r.unmet_fields.items() if v} != {k: sorted(v) for k, v in c.blocked.items()}:
         out.append(('C01', 'blocked-lines', f'unmet_field_dependencies()={r.unmet_fields} but closure finds {dict((k, sorted(v)) for k, v in c.blocked.items())}'))
+    # C06 -- a wait on a line that did get its value was never released
+    for dep, waiters in sorted(r.unmet_fields.items()):
+        if waiters and dep in r.values:
+            out.append(('C06', 'waiter-never-released', f'{dep} holds the value {r.values[dep]!r}, yet {sorted(set(waiters))[:4]} are still reported as waiting for it'))
+            break
+    for dep, waiters in sorted(r.unmet_inputs.items()):
+        try:
+            supplied = waiters and r.store.config.has_option(*dep.split('.', 1))
+        except Exception:
+            supplied = False
+        if supplied and c.missing.get(dep) is None:
+            out.append(('C06', 'waiter-never-released', f'input {dep} is supplied and valid on the final store, yet {sorted(set(waiters))[:4]} are still reported as waiting for it'))
+            break
     # C04 -- key set and form set
     have, want = set(r.values), set(c.values)
     if have - want:
